@@ -9,7 +9,6 @@ use crate::{
     CompilationError, XStaticFunction,
 };
 
-use num_integer::binomial;
 use num_traits::{One, Pow, Signed, ToPrimitive, Zero};
 
 use rc::Rc;
@@ -374,6 +373,20 @@ pub(crate) fn add_int_multinom<W, R, T>(
     )
 }
 
+/// binomial coefficient in 128 bits; None when it (or an intermediate product) does not fit
+fn checked_binomial(n: usize, k: usize) -> Option<u128> {
+    if k > n {
+        return Some(0);
+    }
+    let k = k.min(n - k);
+    let mut ret: u128 = 1;
+    for i in 1..=k {
+        // ret holds C(n-k+i-1, i-1); times (n-k+i) it is divisible by i
+        ret = ret.checked_mul((n - k + i) as u128)? / i as u128;
+    }
+    Some(ret)
+}
+
 pub(crate) fn add_int_permutation<W, R, T>(
     scope: &mut RootCompilationScope<W, R, T>,
 ) -> Result<(), CompilationError> {
@@ -392,8 +405,9 @@ pub(crate) fn add_int_permutation<W, R, T>(
             if k > n{
                 return xerr(ManagedXError::new("k cannot be greater than n", rt)?);
             }
-            let total = (n-k+1..=n).product();
-            if i >= total{
+            // the number of arrangements may not fit a machine word: then every index a word can hold is in range
+            let total = (n-k+1..=n).try_fold(1usize, |acc, f| acc.checked_mul(f));
+            if matches!(total, Some(total) if i >= total){
                 return xerr(ManagedXError::new("i too large", rt)?);
             }
             rt.can_allocate(k)?;
@@ -441,8 +455,11 @@ pub(crate) fn add_int_combination<W, R, T>(
                 }
                 return Ok(manage_native!(XSequence::<W, R, T>::Array(vec![]), rt));
             }
-            let mut s_cutoff = binomial(n-1,k-1);
-            let total = s_cutoff*n/k;
+            // the counts are kept in 128 bits and every product is checked: too many selections is an error, not a crash
+            let too_large = || ManagedXError::new("too many combinations", rt.clone());
+            let Some(mut s_cutoff) = checked_binomial(n-1,k-1) else { return xerr(too_large()?); };
+            let Some(total) = s_cutoff.checked_mul(n as u128).map(|t| t / k as u128) else { return xerr(too_large()?); };
+            let mut i = i as u128;
             if i >= total{
                 return xerr(ManagedXError::new("i too large", rt)?);
             }
@@ -453,13 +470,15 @@ pub(crate) fn add_int_combination<W, R, T>(
                 if i < s_cutoff{
                     ret.push(s);
                     if k > 1{
-                        s_cutoff = s_cutoff*(k-1)/(n-s-1);
+                        let Some(next) = s_cutoff.checked_mul((k-1) as u128) else { return xerr(too_large()?); };
+                        s_cutoff = next/(n-s-1) as u128;
                     }
                     k -= 1;
                     s+=1;
                 } else {
                     i -= s_cutoff;
-                    s_cutoff = s_cutoff*(n-s-k)/(n-s-1);
+                    let Some(next) = s_cutoff.checked_mul((n-s-k) as u128) else { return xerr(too_large()?); };
+                    s_cutoff = next/(n-s-1) as u128;
                     s+=1;
                 }
             }
@@ -494,8 +513,12 @@ pub(crate) fn add_int_combination_with_replacement<W, R, T>(
             if n == 0 {
                 return xerr(ManagedXError::new("i too large", rt)?);
             }
-            let mut s_cutoff = binomial(n+k-2,k-1);
-            let total = (s_cutoff*(n+k-1))/k;
+            // the counts are kept in 128 bits and every product is checked: too many selections is an error, not a crash
+            let too_large = || ManagedXError::new("too many combinations", rt.clone());
+            let Some(top) = n.checked_add(k) else { return xerr(too_large()?); };
+            let Some(mut s_cutoff) = checked_binomial(top-2,k-1) else { return xerr(too_large()?); };
+            let Some(total) = s_cutoff.checked_mul((top-1) as u128).map(|t| t / k as u128) else { return xerr(too_large()?); };
+            let mut i = i as u128;
             if i >= total{
                 return xerr(ManagedXError::new("i too large", rt)?);
             }
@@ -506,12 +529,14 @@ pub(crate) fn add_int_combination_with_replacement<W, R, T>(
                 if i < s_cutoff{
                     ret.push(s);
                     if k > 1{
-                        s_cutoff = (s_cutoff*(k-1))/(k+n-s-2);
+                        let Some(next) = s_cutoff.checked_mul((k-1) as u128) else { return xerr(too_large()?); };
+                        s_cutoff = next/(k+n-s-2) as u128;
                     }
                     k -= 1;
                 } else {
                     i -= s_cutoff;
-                    s_cutoff = (s_cutoff*(n-s-1))/(k+n-s-2);
+                    let Some(next) = s_cutoff.checked_mul((n-s-1) as u128) else { return xerr(too_large()?); };
+                    s_cutoff = next/(k+n-s-2) as u128;
                     s+=1;
                 }
             }
